@@ -257,7 +257,14 @@ func c15Confinement(c *Ctx) {
 		})
 		for _, ci := range calls(fn, named("(desync.HTTPHandler).idFromPath")) {
 			a := ci.Common().Args
-			c.verdict(onlyOrigins(a[len(a)-1], func(o string) bool { return o == "field:URL.Path" }), "HTTPHandler.ServeHTTP:idFromPath-arg", ci.Pos(), "idFromPath(r.URL.Path)", "idFromPath is not given r.URL.Path")
+			// the path argument (the string one, wherever it stands)
+			okArg := false
+			for _, x := range a {
+				if x.Type().String() == "string" && onlyOrigins(x, func(o string) bool { return o == "field:URL.Path" }) {
+					okArg = true
+				}
+			}
+			c.verdict(okArg, "HTTPHandler.ServeHTTP:idFromPath-arg", ci.Pos(), "idFromPath(r.URL.Path)", "idFromPath is not given r.URL.Path")
 		}
 	}
 	// idFromPath: success only behind compare(p, path.Join(...)) and through ChunkIDFromString
